@@ -381,58 +381,7 @@ func checkC11(c *Ctx) {
 		c.Unk("C11.4", "TracksReader.Do", "-", "not found")
 	} else {
 		c.Fn(FuncName(do))
-		ok := false
-		why := "the time handed to the callback is not TimeAt(absolute tick)"
-		for _, call := range calls(do) {
-			if call.Common().StaticCallee() != timeAt {
-				continue
-			}
-			// arg = load of AbsTicks field of the event record; that field is stored with phi+convert(delta)
-			arg := call.Common().Args[1]
-			if l, okl := arg.(*ssa.UnOp); okl {
-				if fv := fieldVar(l.X); fv != nil && fv.Name() == "AbsTicks" {
-					// result stored to AbsMicroSeconds
-					for _, u := range liveRefs(call.Value()) {
-						if st, oks := u.(*ssa.Store); oks {
-							if f2 := fieldVar(st.Addr); f2 != nil && f2.Name() == "AbsMicroSeconds" {
-								ok = true
-							}
-						}
-					}
-				}
-			}
-		}
-		// AbsTicks = running sum reset per track: a store of (phi + convert(Delta)) where the phi's entry value is 0 inside the outer loop
-		sumOK := false
-		for _, b := range do.Blocks {
-			for _, in := range b.Instrs {
-				st, oks := in.(*ssa.Store)
-				if !oks {
-					continue
-				}
-				if fv := fieldVar(st.Addr); fv == nil || fv.Name() != "AbsTicks" {
-					continue
-				}
-				add, oka := st.Val.(*ssa.BinOp)
-				if !oka || add.Op != token.ADD {
-					continue
-				}
-				phi, okp := add.X.(*ssa.Phi)
-				if !okp {
-					continue
-				}
-				zero := false
-				for _, e := range phi.Edges {
-					if k, okk := constInt(e); okk && k == 0 {
-						zero = true
-					}
-				}
-				if zero {
-					sumOK = true
-				}
-			}
-		}
-		c.Check(ok && sumOK, "C11.4", "per-event time = TimeAt(running absolute tick)", p.Pos(do.Pos()), "AbsTicks accumulates the deltas from 0 per track; AbsMicroSeconds = TimeAt(AbsTicks)", fmt.Sprintf("%s (time from TimeAt(AbsTicks): %v, running sum reset per track: %v)", why, ok, sumOK))
+		iteratorSimulation(c, "C11.4", do, timeAt)
 	}
 	// ---- C11.5 collection while reading
 	if rf := p.Func("smf", "ReadFrom"); rf != nil {
@@ -650,4 +599,131 @@ func ticksFormulaRule(c *Ctx, rule string) {
 		why = "the duration or an intermediate product is narrowed to a smaller integer type before the floating point conversion"
 	}
 	c.Check(ok && n > 0, rule, "duration -> tick conversion formula", p.Pos(tks.Pos()), "Round(ns * resolution * bpm / 6e10), no integer narrowing or wrap", why)
+}
+
+// iteratorSimulation (C11.4): TracksReader.Do is interpreted on a file of two tracks with two events each (symbolic
+// deltas), no track selection and no filter; the time query is an uninterpreted function T. The callback must be
+// invoked once per event, in file order, with AbsTicks = running sum of the deltas of that track (restarting at 0 for
+// the second track) and AbsMicroSeconds = T(AbsTicks).
+func iteratorSimulation(c *Ctx, rule string, do, timeAt *ssa.Function) {
+	p := c.P
+	smfT := p.namedType("smf", "SMF")
+	evT := p.namedType("smf", "Event")
+	trackT := p.namedType("smf", "Track")
+	trT := p.namedType("smf", "TracksReader")
+	ex := NewExec(p)
+	ex.Unroll = 6
+	ex.CallHook = func(ex *Exec, st *State, fr *Frame, call ssa.CallInstruction, callee *ssa.Function, args []Val) ([]callRes, bool) {
+		if callee != timeAt || len(args) < 2 {
+			return nil, false
+		}
+		a, _ := args[1].(*IntV)
+		if a == nil {
+			return nil, false
+		}
+		s := ex.syms.Get("T("+st.TermOf(a).String()+")", 64, true)
+		return []callRes{{st: st, ret: mkSym(s)}}, true
+	}
+	st := ex.NewState()
+	k8 := func(v int64) Val { return mkConst(v, 8, false) }
+	var ds []*IntV
+	var tvals []Val
+	for ti := 0; ti < 2; ti++ {
+		var evVals []Val
+		for ei := 0; ei < 2; ei++ {
+			s := ex.syms.Get(fmt.Sprintf("d%d", ti*2+ei), 32, false)
+			d := mkSym(s)
+			ds = append(ds, d)
+			ev := ex.zeroOf(evT).(*StructV)
+			ev.Fields[fieldIndex(ev.T, "Delta")] = d
+			ev.Fields[fieldIndex(ev.T, "Message")] = ex.mkBytes(st, "m", []Val{k8(0x90 + int64(ti)), k8(int64(60 + ei)), k8(100)}, false, 0)
+			evVals = append(evVals, ev)
+		}
+		tid := ex.newObj(st, &ArrayV{Elem: evT, Segs: []Seg{{Elems: evVals}}}, nil)
+		two := mkConst(2, 64, true)
+		tvals = append(tvals, &SliceV{Obj: tid, Off: mkConst(0, 64, true), Len: two, Cap: two})
+	}
+	tsid := ex.newObj(st, &ArrayV{Elem: trackT, Segs: []Seg{{Elems: tvals}}}, nil)
+	two := mkConst(2, 64, true)
+	sp := ex.newZeroObject(st, smfT)
+	ex.setField(st, sp, "Tracks", &SliceV{Obj: tsid, Off: mkConst(0, 64, true), Len: two, Cap: two})
+	rp := ex.newZeroObject(st, trT)
+	// the reader's reference to the file: its only field of type *SMF
+	set := false
+	if rs, ok := st.heap[rp.Obj].(*StructV); ok {
+		for i := 0; i < rs.T.NumFields(); i++ {
+			if pt, ok := rs.T.Field(i).Type().(*types.Pointer); ok && types.Identical(pt.Elem(), smfT) {
+				rs.Fields[i] = sp
+				set = true
+			}
+		}
+	}
+	if !set {
+		c.Unk(rule, "TracksReader: reference to the file", "-", "no field of type *SMF")
+		return
+	}
+	outs := ex.Call(st, do, []Val{rp, &FuncV{Ext: "cb"}}, nil)
+	if ex.Budget || len(outs) == 0 {
+		c.Unk(rule, "iterator simulation", p.Pos(do.Pos()), "abstract interpretation did not complete")
+		return
+	}
+	for u := range ex.Unsupported {
+		c.Unk(rule, "iterator simulation: "+u, p.Pos(do.Pos()), "unmodelled construct")
+		return
+	}
+	ok, why := true, ""
+	for _, o := range outs {
+		if o.Panic || len(problemEvents(o.St.Events)) > 0 {
+			ok, why = false, "Do may panic: "+o.Msg+fmtEvents(problemEvents(o.St.Events))
+			continue
+		}
+		var got []*StructV
+		for _, e := range o.St.Events {
+			if e.Kind == "call:cb" && len(e.Args) == 1 {
+				sv, _ := e.Args[0].(*StructV)
+				got = append(got, sv)
+			}
+		}
+		if len(got) != 4 {
+			ok, why = false, fmt.Sprintf("the callback is invoked %d times for 4 events (no selection, no filter)", len(got))
+			continue
+		}
+		for i, sv := range got {
+			if sv == nil {
+				ok, why = false, "callback argument not tracked"
+				break
+			}
+			want := ds[i]
+			var wantAbs *IntV = o.St.Convert(want, 64, true)
+			if i%2 == 1 {
+				wantAbs = o.St.Arith(token.ADD, o.St.Convert(ds[i-1], 64, true), o.St.Convert(want, 64, true), "")
+			}
+			abs, _ := sv.Fields[fieldIndex(sv.T, "AbsTicks")].(*IntV)
+			us, _ := sv.Fields[fieldIndex(sv.T, "AbsMicroSeconds")].(*IntV)
+			tn, _ := sv.Fields[fieldIndex(sv.T, "TrackNo")].(*IntV)
+			if abs == nil || !o.St.sameInt(abs, wantAbs) {
+				ok, why = false, fmt.Sprintf("event %d of track %d gets absolute tick %s, expected the running sum of that track's deltas %s (restarting at 0 per track)", i%2, i/2, valString(sv.Fields[fieldIndex(sv.T, "AbsTicks")]), wantAbs)
+				break
+			}
+			wantT := mkSym(ex.syms.Get("T("+o.St.TermOf(wantAbs).String()+")", 64, true))
+			if us == nil || !o.St.sameInt(us, wantT) {
+				ok, why = false, fmt.Sprintf("event %d of track %d gets time %s, expected TimeAt(its absolute tick) = %s", i%2, i/2, valString(sv.Fields[fieldIndex(sv.T, "AbsMicroSeconds")]), wantT)
+				break
+			}
+			if tn == nil || !o.St.sameInt(tn, mkConst(int64(i/2), 64, true)) {
+				ok, why = false, fmt.Sprintf("event %d reported for track %s", i, valString(sv.Fields[fieldIndex(sv.T, "TrackNo")]))
+				break
+			}
+			evs, _ := sv.Fields[fieldIndex(sv.T, "Event")].(*StructV)
+			if evs == nil {
+				ok, why = false, "event record not tracked"
+				break
+			}
+			if dv, _ := evs.Fields[fieldIndex(evs.T, "Delta")].(*IntV); dv == nil || !o.St.sameInt(dv, want) {
+				ok, why = false, "the event's delta is altered"
+				break
+			}
+		}
+	}
+	c.Check(ok, rule, "per-event time = TimeAt(running absolute tick)", p.Pos(do.Pos()), "2 tracks x 2 events, symbolic deltas: callback once per event in file order, AbsTicks = running sum per track, AbsMicroSeconds = TimeAt(AbsTicks)", why)
 }
